@@ -184,6 +184,7 @@ func ite(c, a, b Term) Term {
 	}
 	return Term{"(ite " + c.S + " " + a.S + " " + b.S + ")", a.Sort}
 }
+
 // curDefs: defining terms of the constants introduced by VC.define (generation is single-threaded per VC)
 var curDefs map[string]string
 
@@ -548,6 +549,7 @@ type Assertion struct {
 	defOf    string // for definitions: the defined constant
 	guard    string // for (=> guard fact): the guard constant
 	Block    int    // CFG block being executed when the assertion was made (-1: function-global)
+	Stage    int    // float pipeline stage (cut points) of a FloatDef
 }
 
 type Decl struct {
@@ -571,6 +573,7 @@ type Obligation struct {
 	Extra    []string // extra assertion strings (local to this obligation)
 	Block    int      // CFG block of the program point (-1: unknown/global)
 	BlockSet bool
+	Stage    int // float pipeline stage at the program point
 }
 
 // Observation: terms whose model values are requested for replay
@@ -588,6 +591,7 @@ type VC struct {
 	fn       string
 	declared map[string]bool
 	curBlock int
+	stage    int
 	anc      map[int]map[int]bool // anc[b][a]: block a can reach block b
 	prepMu   sync.Mutex
 	nprep    int
@@ -629,7 +633,7 @@ func (vc *VC) define(prefix string, t Term) Term {
 // defineFloat: result of an IEEE operation; always named so that it can be abstracted per obligation.
 func (vc *VC) defineFloat(prefix string, t Term) Term {
 	c := vc.fresh(prefix, t.Sort)
-	vc.asserts = append(vc.asserts, Assertion{S: "(= " + c.S + " " + t.S + ")", Label: "fdef", FloatDef: true, Block: -1})
+	vc.asserts = append(vc.asserts, Assertion{S: "(= " + c.S + " " + t.S + ")", Label: "fdef", FloatDef: true, Block: -1, Stage: vc.stage})
 	return c
 }
 
@@ -656,6 +660,7 @@ func (vc *VC) oblige(o *Obligation) {
 	if !o.BlockSet {
 		o.Block = vc.curBlock
 	}
+	o.Stage = vc.stage
 	if o.Cover {
 		vc.obls = append(vc.obls, o)
 		return
@@ -771,10 +776,12 @@ func (w *World) prelude(needFP bool) string {
 }
 
 func (vc *VC) smtFor(o *Obligation, produceModels bool) string {
-	return vc.smtForOpt(o, produceModels, false)
+	return vc.smtForOpt(o, produceModels, 0)
 }
 
-func (vc *VC) smtForOpt(o *Obligation, produceModels bool, abstractFloats bool) string {
+// abstractFloats: 0 = all float operations exact; 1 = all float results unconstrained;
+// 2 = only the operations of the obligation's own pipeline stage exact (earlier stages are represented by their cut facts)
+func (vc *VC) smtForOpt(o *Obligation, produceModels bool, abstractFloats int) string {
 	var sb strings.Builder
 	if produceModels {
 		sb.WriteString("(set-option :produce-models true)\n")
@@ -867,7 +874,20 @@ func (vc *VC) prepAll() {
 // relevant: assertions needed for obligation o. Definitions are kept when the defined constant is used;
 // guarded assumptions (=> pc fact) are kept when their guard is used; everything else is kept.
 // Dropping an assumption is always sound (it can only make a proof fail, never succeed wrongly).
-func (vc *VC) relevant(o *Obligation, abstractFloats bool) ([]bool, map[string]bool) {
+func (vc *VC) dropFloat(a *Assertion, o *Obligation, mode int) bool {
+	if !a.FloatDef {
+		return false
+	}
+	switch mode {
+	case 1:
+		return true
+	case 2:
+		return a.Stage != o.Stage
+	}
+	return false
+}
+
+func (vc *VC) relevant(o *Obligation, abstractFloats int) ([]bool, map[string]bool) {
 	n := o.NAssert
 	keep := make([]bool, n)
 	used := map[string]bool{}
@@ -889,7 +909,7 @@ func (vc *VC) relevant(o *Obligation, abstractFloats bool) ([]bool, map[string]b
 	vc.prepAll()
 	if os.Getenv("HV_NOPRUNE") != "" {
 		for i := range keep {
-			keep[i] = !(abstractFloats && vc.asserts[i].FloatDef)
+			keep[i] = !vc.dropFloat(&vc.asserts[i], o, abstractFloats)
 		}
 		for _, d := range vc.decls {
 			used[d.Name] = true
@@ -903,7 +923,7 @@ func (vc *VC) relevant(o *Obligation, abstractFloats bool) ([]bool, map[string]b
 				continue
 			}
 			a := &vc.asserts[i]
-			if abstractFloats && a.FloatDef {
+			if vc.dropFloat(a, o, abstractFloats) {
 				continue
 			}
 			if a.defOf != "" {
